@@ -75,7 +75,7 @@ for tname, cost in (("T_NULL", 20), ("T_PRIVATE", 20), ("T_A", 20), ("T_CNAME", 
 G(name="dns_decode_answer_other", wip=True, tier="thorough", harness="h_dns.c",   # runs out of memory (16 GB): part of no check
    entry="h_dns_decode", defs=["H_QR=QR_ANSWER", "H_CASE=4"], style="legacy",
   enforce=["dns_decode"], loops="dns.inv", loop_fns=["dns_decode"], checks=PARSE_CHECKS, discard_cls=PARSE_DISCARD,
-  props={"C12": "all", "C06": "safety"}, min_obl=100, timeout=900, cost=300, mem_gb=24,
+  props={"C12": "all", "C06": "safety"}, min_obl=100, timeout=1500, cost=300, mem_gb=24,
   what="dns_decode, answer direction, every question type other than NULL/PRIVATE/A/CNAME/MX/SRV/TXT")
 G(name="dns_get_id", harness="h_dns.c", entry="h_dns_get_id", style="legacy", enforce=["dns_get_id"], checks=PARSE_CHECKS,
   props={"C12": "all", "C05": "safety", "C06": "safety"}, cost=1, what="dns_get_id reads the first two bytes only, 0 for short packets")
@@ -97,7 +97,7 @@ G(name="login_footprint", harness="h_login.c", entry="h_login_footprint", enforc
   what="login_calculate reads exactly pass[0..32), writes exactly buf[0..16), nothing when buflen < 16; md5.c safety obligations")
 
 for fn, ent, uw in (("fw_query_put", "h_fwq_put", 18), ("fw_query_get", "h_fwq_get", 18), ("fw_query_init", "h_fwq_init", 18), ("fw_query ring lemma", "h_fwq_ring", 18)):
-    G(name=ent[2:], harness="h_fwq.c", entry=ent, enforce=[fn], style="legacy", unwind=uw, props={"C20": "all", "C05": "safety"}, min_obl=3, cost=5, timeout=900,
+    G(name=ent[2:], harness="h_fwq.c", entry=ent, enforce=[fn], style="legacy", unwind=uw, props={"C20": "all", "C05": "safety"}, min_obl=3, cost=5, timeout=1500,
       what="%s: ring of literal size 16, arbitrary prior state, ghost slot/byte index; loops unrolled exactly" % fn)
 
 for ent, fn, props, what in (
@@ -118,7 +118,7 @@ for uc in (0, 1):
       what="check_user_and_ip family == the statement's predicate (live, not expired, own source with -c, logged in, options unlocked), both directions, userid case %s" % ("literal 0" if uc == 0 else "any other value"))
     for cmd in "SONIR":
         G(name="srv_cmd_%s_u%d" % (cmd, uc), harness="h_iodined.c", entry="h_cmd_guarded", defs=["H_UID_CASE=%d" % uc, "H_CMD='%s'" % cmd, "STUB_HELPERS=1"], enforce=["handle_null_request"],
-          style="legacy", unwind=33, unwindset=(["handle_null_request.3:2047"] if cmd == "R" else []), cbmc_flags=SRV_FLAGS, props={"C03": "all", "C04": "all", "C05": "safety", "C15": "all", "C14": "all"}, min_obl=10, timeout=900, cost=200, mem_gb=24, **SRV_SHRINK,
+          style="legacy", unwind=33, unwindset=(["handle_null_request.3:2047"] if cmd == "R" else []), cbmc_flags=SRV_FLAGS, props={"C03": "all", "C04": "all", "C05": "safety", "C15": "all", "C14": "all"}, min_obl=10, timeout=1500, cost=200, mem_gb=24, **SRV_SHRINK,
           what="handle_null_request, command %s (either letter case), userid case %s: no setting changes / BADIP only unless the named session is live, from its own source and logged in; at most one answer; no tun write; SESSION_WF preserved" % (cmd, "literal 0" if uc == 0 else "any other value"))
 
 for ent, fns, props, what in (
@@ -126,24 +126,24 @@ for ent, fns, props, what in (
      "send_chunk_or_dataless on an arbitrary session: payload <= fragsize, last flag only on the final fragment, fragment number field, one answer (+1 for a remembered duplicate), query consumed, SESSION_WF preserved"),
     ("h_downstream_ack", ["process_downstream_ack"], {"C15": "all", "C05": "safety"}, "process_downstream_ack: only a matching ack advances, by exactly the bytes sent, fragment numbers consecutive"),
     ("h_outpacket_queue", ["save_to_outpacketq", "get_from_outpacketq", "start_new_outpacket"], {"C15": "all", "C01": "all", "C05": "safety"}, "outpacket queue: FIFO of 4, new packets start at fragment 0 with the next sequence number")):
-    G(name="srv_" + ent[2:], harness="h_iodined.c", entry=ent, enforce=fns, defs=(["STUB_GETQ=1"] if ent == "h_send_chunk" else []), style="legacy", unwind=33, unwindset=["h_send_chunk.0:6", "h_send_chunk.1:5", "h_downstream_ack.0:6", "h_downstream_ack.1:5", "h_outpacket_queue.0:6", "h_outpacket_queue.1:5"], cbmc_flags=SRV_FLAGS, props=props, min_obl=10, timeout=900, cost=100, mem_gb=24, what=what, **SRV_SHRINK)
+    G(name="srv_" + ent[2:], harness="h_iodined.c", entry=ent, enforce=fns, defs=(["STUB_GETQ=1"] if ent == "h_send_chunk" else []), style="legacy", unwind=33, unwindset=["h_send_chunk.0:6", "h_send_chunk.1:5", "h_downstream_ack.0:6", "h_downstream_ack.1:5", "h_outpacket_queue.0:6", "h_outpacket_queue.1:5"], cbmc_flags=SRV_FLAGS, props=props, min_obl=10, timeout=1500, cost=100, mem_gb=24, what=what, **SRV_SHRINK)
 
 for cmd in "ZY":
     G(name="srv_cmd_%s" % cmd, harness="h_iodined.c", entry="h_cmd_open", defs=["H_CMD='%s'" % cmd, "STUB_HELPERS=1"], enforce=["handle_null_request"],
-      style="legacy", unwind=33, cbmc_flags=SRV_FLAGS, props={"C03": "all", "C04": "all", "C05": "safety", "C14": "all"}, min_obl=10, timeout=900, cost=200, mem_gb=24,
+      style="legacy", unwind=33, cbmc_flags=SRV_FLAGS, props={"C03": "all", "C04": "all", "C05": "safety", "C14": "all"}, min_obl=10, timeout=1500, cost=200, mem_gb=24,
       what="handle_null_request, open probe %s: one answer, no session touched, no tun write" % cmd, **SRV_SHRINK)
 G(name="srv_cmd_V", harness="h_iodined.c", entry="h_cmd_version", defs=["H_CMD='V'", "STUB_HELPERS=1"], enforce=["handle_null_request"],
-  style="legacy", unwind=33, cbmc_flags=SRV_FLAGS, props={"C03": "all", "C04": "all", "C05": "safety", "C14": "all", "C15": "all"}, min_obl=10, timeout=900, cost=200, mem_gb=24,
+  style="legacy", unwind=33, cbmc_flags=SRV_FLAGS, props={"C03": "all", "C04": "all", "C05": "safety", "C14": "all", "C15": "all"}, min_obl=10, timeout=1500, cost=200, mem_gb=24,
   what="handle_null_request, V: never authenticates; a new challenge clears both login flags; takes only a slot unused or silent > 60 s; fresh session: fragsize 100, DNS mode, empty buffers; one 9-byte answer", **SRV_SHRINK)
 for uc in (0, 1):
     G(name="srv_cmd_L_u%d" % uc, harness="h_iodined.c", entry="h_cmd_login", defs=["H_CMD='L'", "H_UID_CASE=%d" % uc, "STUB_HELPERS=1"], enforce=["handle_null_request"],
-      style="legacy", unwind=33, cbmc_flags=SRV_FLAGS, props={"C03": "all", "C04": "all", "C05": "safety", "C14": "all", "C19": "all"}, min_obl=10, timeout=900, cost=200, mem_gb=24,
+      style="legacy", unwind=33, cbmc_flags=SRV_FLAGS, props={"C03": "all", "C04": "all", "C05": "safety", "C14": "all", "C19": "all"}, min_obl=10, timeout=1500, cost=200, mem_gb=24,
       what="handle_null_request, L (userid case %d): the login flag rises only for a live session from its own source whose 16 bytes equal login_calculate(password, that session's current seed); nothing else changes; BADIP/BADLEN otherwise" % uc, **SRV_SHRINK)
 
 for cmd, nm in (("P", "ping"), ("D", "data")):
     for uc in (0, 1):
         G(name="srv_cmd_%s_u%d" % (nm, uc), harness="h_iodined.c", entry="h_cmd_stream", defs=["H_CMD='%s'" % cmd, "H_UID_CASE=%d" % uc, "STUB_HELPERS=1", "STUB_CONTRACTS=1"] + (["STUB_CHECKS=1"] if uc else []), enforce=["handle_null_request"],
-          style="legacy", unwind=33, cbmc_flags=SRV_FLAGS, props={"C03": "all", "C04": "all", "C05": "safety", "C14": "all", "C16": "all", "C01": "all"}, min_obl=10, timeout=900, cost=300, mem_gb=24,
+          style="legacy", unwind=33, cbmc_flags=SRV_FLAGS, props={"C03": "all", "C04": "all", "C05": "safety", "C14": "all", "C16": "all", "C01": "all"}, min_obl=10, timeout=1500, cost=300, mem_gb=24,
           what="handle_null_request, %s (userid case %d), stream helpers replaced by their contracts: token accounting (answers + held <= received + held before), id 0 ignored, nothing without a live authenticated session, cache/qmem hit touches nothing, at most one delivery, SESSION_WF preserved, every send_chunk_or_dataless call site has id != 0" % (nm, uc), **SRV_SHRINK)
 
 # ---- encoding.c (C08) --------------------------------------------------------------------------
@@ -154,7 +154,7 @@ G(name="enc_undotify", harness="h_encoding.c", entry="h_undotify", style="legacy
   props={"C08": "all", "C05": "safety"}, min_obl=10, timeout=600, cost=30,
   what="inline_undotify on a buffer of exactly len bytes, every len <= 65536: no access outside, result in 0..len, no dot remains (loop contract)")
 G(name="enc_undotify_exh", harness="h_encoding.c", entry="h_undotify_exh", defs=["UNDOT_EXH=64"], style="legacy", enforce=["inline_undotify"], unwind=66, checks=[], cbmc_flags=["--no-standard-checks"], rss_gb=8,
-  props={"C08": "all"}, min_obl=3, timeout=900, cost=200, kind="bounded", bound="text of at most 64 characters",
+  props={"C08": "all"}, min_obl=3, timeout=1500, cost=200, kind="bounded", bound="text of at most 64 characters",
   what="inline_undotify == 'remove every dot, keep the order' for every text of at most 64 characters (bounded stand-in for the content clause; length, footprint and no-dot-remains are unbounded in enc_undotify)")
 for bits in (5, 6, 7):
     G(name="enc_build_hostname_b%d" % bits, harness="h_encoding.c", entry="h_build_hostname", defs=["CBITS=%d" % bits, "STUB_DOTIFY=1"], style="legacy", enforce=["build_hostname"],
@@ -174,7 +174,7 @@ G(name="tun_setmtu", harness="h_tun.c", entry="h_tun_setmtu", style="legacy", en
 
 for uc in (0, 1):
     G(name="srv_raw_u%d" % uc, harness="h_iodined.c", entry="h_raw_decode", defs=["H_UID_CASE=%d" % uc, "STUB_HELPERS=1", "STUB_CONTRACTS=1", "H_RAW=1"], enforce=["raw_decode", "handle_raw_login", "handle_raw_data", "handle_raw_ping", "send_raw"],
-      style="legacy", unwind=33, cbmc_flags=SRV_FLAGS, props={"C03": "all", "C04": "all", "C05": "safety", "C12": "all", "C19": "all", "C14": "all"}, min_obl=10, timeout=900, cost=200, mem_gb=24,
+      style="legacy", unwind=33, cbmc_flags=SRV_FLAGS, props={"C03": "all", "C04": "all", "C05": "safety", "C12": "all", "C19": "all", "C14": "all"}, min_obl=10, timeout=1500, cost=200, mem_gb=24,
       what="raw_decode + handle_raw_login/data/ping + send_raw on a datagram of exactly len bytes (userid case %d): raw login only for a live DNS-authenticated session and only with the response for challenge+1, answered with challenge-1, then rebinding and raw mode; raw data/ping only with DNS and raw login from the bound source; nothing else changes; no DNS answer; no read outside the datagram" % uc, **SRV_SHRINK)
 
 # ---- dns.c message builders (C10) ---------------------------------------------------------------
@@ -195,11 +195,11 @@ G(name="dnsenc_query", entry="h_encode_query", enforce=["dns_encode"], props={"C
   what="dns_encode, query direction (client send_query and server forward_query): header, one question with the host name / the query's own name, type, class IN, EDNS0 OPT record present exactly when ARCOUNT is 1, exact message length")
 
 G(name="putname", wip=True, harness="h_putname.c", entry="h_putname", style="legacy", enforce=["putname"], loops="putname.inv", loop_fns=["putname"], spec_incs=["spec/putname.h"], unwind=3,
-  props={"C10": "all", "C05": "safety", "C06": "safety"}, min_obl=30, timeout=900, cost=100,
+  props={"C10": "all", "C05": "safety", "C06": "safety"}, min_obl=30, timeout=1500, cost=100,
   what="putname for every name of at most 255 characters (QUERY_NAME_SIZE - 1) and every limit (loop contract, no bound): writes one length byte 1..63 plus the bytes of every strtok token (arbitrary ghost token and byte), contiguously, then the root label; n + 2 bytes exactly unless the name has an empty label (witness position checked); never beyond n + 2 bytes; fails only at a label longer than 63 or with a limit below the length of the name, leaving the cursor unchanged")
 
 # ---- client.c (C06, C09) ------------------------------------------------------------------------------
-CLI = dict(harness="h_client.c", style="legacy", unwind=8, timeout=900, shrink="client.c", shrink_set="client64", cbmc_flags=["--no-array-field-sensitivity"])
+CLI = dict(harness="h_client.c", style="legacy", unwind=8, timeout=1500, shrink="client.c", shrink_set="client64", cbmc_flags=["--no-array-field-sensitivity"])
 G(name="cli_tunnel_dns", entry="h_tunnel_dns", defs=["STUB_TUNNEL=1"], enforce=["tunnel_dns"], props={"C06": "all", "C01": "all"}, min_obl=30, cost=100, **CLI,
   what="client tunnel_dns on arbitrary packet state (invariant: fill levels within capacity) and an arbitrary reply: unmatched replies (id not among the three most recent, wrong first letter, no header) change and deliver nothing; duplicate fragments and fragments after a gap are not appended; appended bytes are exactly the reply's bytes behind the 2-byte header at the fill level (ghost index), never beyond the buffer; tun gets only a successfully inflated packet with zlib's bytes and length, on the last-fragment flag; only a matching ack advances the upstream packet by exactly the bytes sent")
 G(name="cli_namedec", entry="h_namedec", enforce=["dns_namedec"], props={"C09": "all", "C06": "safety"}, min_obl=10, cost=30, **CLI,
@@ -211,10 +211,10 @@ for ent, fns, what in (
     ("h_dnscache", ["save_to_dnscache", "answer_from_dnscache"], "answer cache: ring of 4; an identical repeat (same type, strcmp-equal name, any DNS id) is answered exactly once with the stored bytes and length, nothing else touched"),
     ("h_dnscache_miss", ["answer_from_dnscache"], "answer_from_dnscache: miss = nothing emitted, query kept, no valid entry (arbitrary ghost slot) has this type and name; hit = one answer, query consumed")):
     G(name="srv_" + ent[2:], wip=ent.startswith("h_dnscache"), harness="h_iodined.c", entry=ent, enforce=fns, defs=["H_QMEM=1"], style="legacy", unwind=33, unwindset=["verif_strcmp.0:257", "answer_from_dnscache.0:5", "h_dnscache.0:5", "h_dnscache_miss.0:5"], cbmc_flags=SRV_FLAGS,
-      props={"C16": "all", "C05": "safety", "C14": "all"}, min_obl=10, timeout=900, cost=100, mem_gb=24, what=what, **SRV_SHRINK)
+      props={"C16": "all", "C05": "safety", "C14": "all"}, min_obl=10, timeout=1500, cost=100, mem_gb=24, what=what, **SRV_SHRINK)
 
 # ---- iodined.c: network-facing functions around the dispatcher (C17 dispatch, C10 aux answers, C20 forwarding) ------
-NET = dict(harness="h_iodined.c", style="legacy", unwind=33, cbmc_flags=SRV_FLAGS, min_obl=8, timeout=900, cost=60, mem_gb=24, **SRV_SHRINK)
+NET = dict(harness="h_iodined.c", style="legacy", unwind=33, cbmc_flags=SRV_FLAGS, min_obl=8, timeout=1500, cost=60, mem_gb=24, **SRV_SHRINK)
 NETDEFS = ["H_NET=1", "STUB_HELPERS=1", "STUB_CONTRACTS=1"]
 G(name="srv_tunnel_dns", entry="h_tunnel_dns", defs=NETDEFS, enforce=["tunnel_dns"], props={"C17": "all", "C10": "all", "C20": "all", "C05": "safety"}, **NET,
   what="server tunnel_dns for an arbitrary decoded query and an arbitrary matcher result: a name outside the tunnel domain reaches no tunnel handler and is forwarded exactly when forwarding is enabled; a name under it is never forwarded; NS queries get the NS answer with the matched offset, A queries for ns./www. the address answer, exactly the tunnel record types reach the dispatcher with the reported data length; at most one handler per datagram")
@@ -234,7 +234,7 @@ for dest in (-1, 0, 1):
       what="server tunnel_tun on a TWO-slot table (owner of the destination address by the find_user_by_ip contract: %s): the session is looked up by the packet's destination address; no owner => dropped, nothing sent or changed; owner t => exactly the bytes read are compressed and handed to slot t only (new downstream packet + at most one held query of t answered, or queued behind the packet in flight, or one raw datagram to t's address), the other slot untouched" % dn)
 
 # ---- iodined.c: the answer writer (C09 stages 1/2, C10) --------------------------------------------------------------
-WD = dict(harness="h_writedns.c", style="legacy", unwind=8, cbmc_flags=SRV_FLAGS, min_obl=8, timeout=900, cost=60, mem_gb=24, shrink="iodined.c", shrink_set="writedns", rss_gb=4)
+WD = dict(harness="h_writedns.c", style="legacy", unwind=8, cbmc_flags=SRV_FLAGS, min_obl=8, timeout=1500, cost=60, mem_gb=24, shrink="iodined.c", shrink_set="writedns", rss_gb=4)
 G(name="wd_nameenc", entry="h_nameenc", enforce=["write_dns_nameenc"], props={"C09": "all", "C10": "all", "C05": "safety"}, **WD,
   what="write_dns_nameenc for every payload of 0..4096 bytes, every downstream codec letter and every buffer of 256..1024 bytes (exact-size object): codec letter h/i/j/k == codec used; the codec is offered 245 characters; result = bytes consumed (>= 1 for a non-empty payload); name = letter + dotted text + separating dot + 2 letters, NUL-terminated, at most 253 characters")
 for tname in ("T_CNAME", "T_A", "T_TXT", "T_NULL", "T_PRIVATE", "OTHER"):
@@ -244,7 +244,7 @@ for tname in ("T_CNAME", "T_A", "T_TXT", "T_NULL", "T_PRIVATE", "OTHER"):
       what="write_dns, query type %s, every payload of 0..4096 bytes and codec letter: CNAME/A = one write_dns_nameenc name; TXT = letter t/s/u/v/r + the complete text of the codec named by the letter (raw: payload copied as is); NULL/PRIVATE/other = payload as is; one message built for the query being answered and sent once to the asker" % tname)
 
 # ---- client.c handshake parsers (C06, C13 boundary, C19 call sites) ---------------------------------------------------
-HS = dict(CLI, unwind=70, unwindset=["tun_setip.0:67", "tun_setip.1:67"], timeout=900, cost=80, min_obl=10)
+HS = dict(CLI, unwind=70, unwindset=["tun_setip.0:67", "tun_setip.1:67"], timeout=1500, cost=80, min_obl=10)
 for ent, fns, props, what in (
     ("h_hs_login", ["handshake_login"], {"C06": "all", "C13": "all", "C19": "all"}, "handshake_login with an arbitrary reply of up to 4096 bytes: the reply is a NUL-terminated string inside its buffer before it is parsed, the two address fields handed to tun_setip are NUL-terminated within 65 bytes, the response is computed from the password and exactly the challenge received, success only if both configuration steps succeeded"),
     ("h_hs_version", ["handshake_version"], {"C06": "all"}, "handshake_version with an arbitrary reply: every index read is below the reply length, no undefined shift"),
